@@ -5,6 +5,7 @@ import Model.HopLemmas
 import Model.Device
 import Model.Proto.Xreq
 import Model.Proto.RawRecv
+import Model.DevicePlumb
 namespace Props.C09
 open Model Model.Hop
 
@@ -326,6 +327,16 @@ example : Proto.RawRecv.Inv { rout := [(1, ([0x80, 0, 0, 1], [0xaa]))], recvQ :=
                               rin := [(1, [0x80, 0, 0, 1, 0xaa]), (1, [0x80]), (2, [0x80, 0, 0, 2]), (1, [0x80, 0, 0, 3, 7])] } :=
   ⟨by decide, by decide⟩
 example : Proto.RawRecv.Reach Proto.RawRecv.init := Proto.RawRecv.Reach.init
+
+/-! ### `mangos.Device` itself (device.go, `Model/DevicePlumb.lean`): which sockets it joins -/
+
+/-- Device succeeds exactly for two raw sockets naming each other as peer protocol; in either order; never with a
+    cooked socket; one forwarder per direction -/
+theorem device_joins_exactly_raw_peers (x y : DevicePlumb.Sock) (same : Bool) :
+    ((DevicePlumb.plumb (some x) (some y) same).isOk = true ↔
+      x.self = y.peer ∧ y.self = x.peer ∧ x.raw = some true ∧ y.raw = some true) ∧
+    (DevicePlumb.plumb (some x) (some y) same).isOk = (DevicePlumb.plumb (some y) (some x) same).isOk :=
+  ⟨DevicePlumb.plumb_ok_iff x y same, DevicePlumb.plumb_ok_symm x y same⟩
 
 /-- forwarding loops die out: each crossing adds one word, so after ttl+1 crossings it is dropped -/
 theorem loop_dies (P : HopSite) (hwf : WellFormed P) (ttl : Nat) (hdr0 : Bytes) (ws : List Word) (idw : Word)
